@@ -131,6 +131,7 @@ func H_C16(v *zzverif.T) {
 	shapes := make([][]int, len(specs))
 	axes := make([]int, len(specs))
 	data := make([][][]float32, len(specs)) // [input][sample]
+	dataI := make([][][]int32, len(specs))  // int32 inputs with concrete per-sample values ("name:shape:axis:i32=a,b|c,d|...")
 	for i, spec := range specs {
 		pp := zzSplit(spec, ':')
 		names[i] = pp[0]
@@ -138,6 +139,17 @@ func H_C16(v *zzverif.T) {
 			shapes[i] = append(shapes[i], zzAtoi(d))
 		}
 		axes[i] = zzAtoi(pp[2])
+		if len(pp) > 3 {
+			per := zzSplit(zzSplit(pp[3], '=')[1], '|')
+			for s := 0; s < n; s++ {
+				var vals []int32
+				for _, x := range zzSplit(per[s], ',') {
+					vals = append(vals, int32(zzAtoi(x)))
+				}
+				dataI[i] = append(dataI[i], vals)
+			}
+			continue
+		}
 		for s := 0; s < n; s++ {
 			if grid {
 				// IEEE arithmetic on the grid {-200, 0, 200}: every exponential is exactly 0, 1 or +Inf
@@ -158,6 +170,8 @@ func H_C16(v *zzverif.T) {
 	if grid {
 		zzC16SeedRegion(v, data[0], n)
 	}
+	// mayrefuse: the operator may refuse the request; then alone and in a batch must agree about it
+	mayRefuse := v.Has("mayrefuse") && v.CBool("mayrefuse")
 	run := func(tag string, in Tensors) (Tensors, bool) {
 		var out Tensors
 		var rerr error
@@ -166,23 +180,51 @@ func H_C16(v *zzverif.T) {
 		if pp {
 			return nil, false
 		}
-		v.Assert("C16.run-succeeds:"+tag, rerr == nil)
+		if !mayRefuse {
+			v.Assert("C16.run-succeeds:"+tag, rerr == nil)
+		}
 		return out, rerr == nil
 	}
 	// each sample alone
 	single := make([][][]float32, len(outputs)) // [output][sample]
+	singleB := make([][][]bool, len(outputs))   // bool outputs
 	singleShape := make([][]int, len(outputs))
+	mkIn := func(i int, rows []int) tensor.Tensor {
+		if dataI[i] != nil {
+			ordered := make([][]int32, len(rows))
+			for k, s := range rows {
+				ordered[k] = dataI[i][s]
+			}
+			d, full := zzStackG(ordered, shapes[i], axes[i])
+			return zzverif.NewTensor(d, full)
+		}
+		ordered := make([][]float32, len(rows))
+		for k, s := range rows {
+			ordered[k] = data[i][s]
+		}
+		d, full := zzStackG(ordered, shapes[i], axes[i])
+		return zzverif.NewTensor(d, full)
+	}
+	anyRefused := false
 	for s := 0; s < n; s++ {
 		in := Tensors{}
 		for i := range specs {
-			in[names[i]] = zzverif.NewTensor(data[i][s], shapes[i])
+			in[names[i]] = mkIn(i, []int{s})
 		}
 		out, ok := run("single", in)
 		if !ok {
-			return
+			if !mayRefuse {
+				return
+			}
+			anyRefused = true
+			continue
 		}
 		for o, name := range outputs {
-			single[o] = append(single[o], zzReadFloats(out[name]))
+			if out[name].Dtype() == tensor.Bool {
+				singleB[o] = append(singleB[o], zzReadElems[bool](out[name]))
+			} else {
+				single[o] = append(single[o], zzReadElems[float32](out[name]))
+			}
 			singleShape[o] = append([]int{}, out[name].Shape()...)
 		}
 	}
@@ -200,24 +242,68 @@ func H_C16(v *zzverif.T) {
 		}
 		in := Tensors{}
 		for i := range specs {
-			ordered := make([][]float32, n)
-			for s := range perm {
-				ordered[s] = data[i][perm[s]]
-			}
-			d, full := zzStack(ordered, shapes[i], axes[i])
-			in[names[i]] = zzverif.NewTensor(d, full)
+			in[names[i]] = mkIn(i, perm)
 		}
 		out, ok := run("batch-"+order, in)
-		if !ok {
+		if mayRefuse {
+			// a request that is refused for one of its samples alone is refused for the batch, and the other way round
+			v.Assert("C16.refused-alone-iff-refused-in-the-batch:"+order, ok == !anyRefused)
+			if !ok || anyRefused {
+				continue
+			}
+		} else if !ok {
 			return
 		}
 		for o, name := range outputs {
+			if len(singleB[o]) > 0 {
+				ordered := make([][]bool, n)
+				for s := range perm {
+					ordered[s] = singleB[o][perm[s]]
+				}
+				want, full := zzStackG(ordered, singleShape[o], outAxis[o])
+				v.AssertTensor("C16.each-sample-as-alone:"+order+":"+name, out[name], full, want)
+				continue
+			}
 			ordered := make([][]float32, n)
 			for s := range perm {
 				ordered[s] = single[o][perm[s]]
 			}
-			want, full := zzStack(ordered, singleShape[o], outAxis[o])
+			want, full := zzStackG(ordered, singleShape[o], outAxis[o])
 			v.AssertTensor("C16.each-sample-as-alone:"+order+":"+name, out[name], full, want)
 		}
 	}
+}
+
+// zzReadElems returns the elements of a tensor in row-major order.
+func zzReadElems[E any](t tensor.Tensor) []E {
+	shape := t.Shape()
+	n := zzverif.Prod(shape)
+	out := make([]E, n)
+	if len(shape) == 0 {
+		out[0] = t.ScalarValue().(E)
+		return out
+	}
+	for f := 0; f < n; f++ {
+		x, err := t.At(zzverif.Unravel(f, shape)...)
+		if err != nil {
+			panic(err)
+		}
+		out[f] = x.(E)
+	}
+	return out
+}
+
+// zzStackG stacks per-sample data (each of shape `shape`, whose extent along axis is 1) along axis.
+func zzStackG[E any](samples [][]E, shape []int, axis int) ([]E, []int) {
+	n := len(samples)
+	full := append([]int{}, shape...)
+	full[axis] = n
+	out := make([]E, zzverif.Prod(full))
+	for f := range out {
+		idx := zzverif.Unravel(f, full)
+		s := idx[axis]
+		idx[axis] = 0
+		out[f] = samples[s][zzverif.Ravel(idx, shape)]
+	}
+	return out, full
 }
